@@ -326,6 +326,11 @@ func runC01Crash(r *ev.Run) {
 		if d {
 			died.Add(1)
 		}
+		if strings.Contains(what, "Create a new file") {
+			// the dependency's empty-WAL reopen failure (known finding of C07), not this property's business
+			r.Add("crash_cases_hit_by_the_badger_wal_finding", 1)
+			return
+		}
 		if what == "" {
 			return
 		}
